@@ -44,6 +44,10 @@ inductive EK where
 inductive Str where
   | lit (n : Nat)
   | err (k : EK)
+  /-- the text an object's `@display` function returned (`'str<n>'`): shown unquoted in containers -/
+  | shown (n : Nat)
+  /-- display tokens: `[`, `]`, and the separator between the holes of an interpolated line -/
+  | lb | rb | sep
   deriving DecidableEq, Repr, Inhabited
 
 inductive Val where
@@ -148,6 +152,7 @@ structure Def where
 structure Cls where
   addFn : Option Nat := none     -- `@+: |o| f<k>(self, o)`
   ltFn : Option Nat := none      -- `@<: |o| f<k>(self, o)`
+  dispFn : Option Nat := none    -- `@display: || f<k>(self)` (a script function: it may raise)
   deriving Repr, Inhabited
 
 structure Prog where
@@ -162,7 +167,8 @@ structure Prog where
 inductive Shown where
   | atom (v : Val)
   | lst (vs : List Val)
-  | parts (vs : List Val)    -- the values of the holes of an interpolated marker line
+  | parts (vs : List Val)    -- the display tokens of the holes of an interpolated marker line
+  | toks (top : Val) (ts : List Val)   -- a displayed value: its display tokens (containers flattened)
   deriving DecidableEq, Repr, Inhabited
 
 structure Ev where
